@@ -1,4 +1,5 @@
 import Tau.Rule
+import Tau.Properties.C16
 /-
   C11 — Verdict is independent of how the document is represented (partial: the adapters are Rust
   glue; their tie to the model is the correspondence run over four representations).
@@ -62,5 +63,37 @@ theorem user_doc_is_its_find (g : Str → Option Value) (k : Str) : (Doc.user g)
 example : yamlToValue (.num (.int 9223372036854775807)) = .uint 9223372036854775807 ∧
     yamlToValue (.num (.int (-1))) = .int (-1) := by
   constructor <;> rfl
+
+end Tau.C11
+
+/-! ### Rule level: the solver sees a document only through `find` -/
+
+namespace Tau.C11
+open Tau
+
+/-- **The verdict depends on the document only through `find`.** Two documents of ANY
+    representation (an `Object` with the default path walk, a user `Document`, …) whose `find`
+    answers agree give the same three-valued result — hence the same verdict — for every rule:
+    every condition tree, every set of identifier bodies, plain or optimised. -/
+theorem representation_independent (E : RegexEngine) (ids : Ids) (d d' : Doc) (e : Expr)
+    (h : ∀ k, d.find k = d'.find k) : solveTop E ids d e = solveTop E ids d' e :=
+  C16.frame_rule E ids d d' e (fun k _ => h k)
+
+theorem representation_independent_verdict (E : RegexEngine) (ids : Ids) (d d' : Doc) (e : Expr)
+    (h : ∀ k, d.find k = d'.find k) : matchesTop E ids d e = matchesTop E ids d' e := by
+  unfold matchesTop; rw [representation_independent E ids d d' e h]
+
+/-- An `Object`-backed document and a hand-written `Document` that answers every key as the default
+    path walk over the same fields would: indistinguishable. -/
+theorem object_vs_document (E : RegexEngine) (ids : Ids) (kvs : List (Str × Value)) (e : Expr) :
+    solveTop E ids (.obj kvs) e = solveTop E ids (.user (objFind kvs)) e :=
+  representation_independent E ids _ _ e (fun _ => rfl)
+
+/-- The same rule-level statement for the optimised rule (any switches): optimisation is a function
+    of the rule alone, so it cannot tell representations apart either. -/
+theorem representation_independent_optimised (E : RegexEngine) (sw : Switches) (r : Rule) (d d' : Doc)
+    (h : ∀ k, d.find k = d'.find k) : (r.optimise E sw).matches E d = (r.optimise E sw).matches E d' := by
+  unfold Rule.matches Rule.solve
+  rw [representation_independent E _ d d' _ h]
 
 end Tau.C11
